@@ -95,7 +95,7 @@ Qed.
 Lemma new_obj_val w p y : Inv w -> new_obj (view_of w) p = Val y ->
   0 <= p < PID_MAX /\ exists k, lookup (table w) p = Some k /\
   y = {| opid := p; ostart := Some (kstart k); ogone := false; oreused := false; octime := None; ohash := None;
-         oshot := O; ocppid := None; ocstat := None; oexit := false |}.
+         oshot := O; ocppid := None; ocstat := None; oexit := false; oshared := false |}.
 Proof.
   intros I. unfold new_obj. destruct (Z.ltb_spec p 0); [discriminate|].
   destruct (Z.leb_spec PID_MAX p); [discriminate|].
@@ -120,7 +120,7 @@ Lemma new_obj_self w x i : Inv w -> obj_ok w x i ->
   new_obj (view_of w) (opid x) =
   match lookup (table w) (opid x) with
   | Some k => Val {| opid := opid x; ostart := Some (kstart k); ogone := false; oreused := false; octime := None; ohash := None;
-         oshot := O; ocppid := None; ocstat := None; oexit := false |}
+         oshot := O; ocppid := None; ocstat := None; oexit := false; oshared := false |}
   | None => Exc NoSuchProcess
   end.
 Proof.
